@@ -35,6 +35,7 @@ CONSTANTS Interps,          \* interpreter instances, e.g. {"i1","i2"}
           GenRot,           \* c11: TRUE = form/poke of an edge fixed by position
           GenBack,          \* c11: "all" = any edge; "first" = edges to later modules
                             \*      or from the last back to the first (random graphs mostly acyclic)
+          GenSorted,        \* c11: TRUE = one module's requires in ModSeq order of targets
           MaxCtr,           \* bound on bumps of one module from the session
           LoadCap,          \* load counters saturate here
           MaxReq,           \* bound on commands per history (0 = unbounded)
@@ -321,6 +322,7 @@ GenEdge(m, d, form, poke) ==
   /\ Cardinality({k \in DOMAIN gen : gen[k].m = m}) < MaxOut
   /\ \A k \in DOMAIN gen : ~(gen[k].m = m /\ gen[k].d = d)
   /\ GenBack = "first" => (Idx(d) > Idx(m) \/ (Idx(d) = 1 /\ Idx(m) = Len(ModSeq)))
+  /\ (GenSorted /\ Len(gen) > 0) => (gen[Len(gen)].m = m => Idx(gen[Len(gen)].d) < Idx(d))
   /\ poke => form # "imp"                 \* the import list has no bump
   /\ GenRot => /\ form = Forms[((Idx(m) + Idx(d) + Len(gen)) % 4) + 1]
                /\ poke = (Len(gen) % 2 = 1 /\ form # "imp")
